@@ -33,23 +33,28 @@ func ruleWriterImpliesMarker(w *core.World, r *core.Report) {
 		if f.Pkg == nil || !strings.HasSuffix(f.Pkg.Pkg.Path(), "pkg/store") {
 			continue
 		}
-		for _, in := range core.OwnInstrs(f) {
+		if core.ExpandedInto(f) != nil {
+			continue // a helper with one call site is read as part of its caller
+		}
+		// the segment may be built by a helper (expanded: its instructions count as the caller's, a call of it is
+		// the value it returns)
+		for _, in := range core.Instrs(f) {
 			c, ok := in.(*ssa.Call)
 			if !ok || core.ResolveCall(c).Name != "(*pkg/store.dataSetAof).SetWriter" || len(c.Call.Args) < 1 {
 				continue
 			}
-			seg := c.Call.Args[0]
+			seg := core.Unwrap(c.Call.Args[0])
 			n++
 			marked := false
-			for _, in2 := range core.OwnInstrs(f) {
+			for _, in2 := range core.Instrs(f) {
 				switch x := in2.(type) {
 				case *ssa.Store:
 					fa, isFa := x.Addr.(*ssa.FieldAddr)
-					if isFa && fa.X == seg && core.FieldName(fa) == "size" && negConst(x.Val) {
+					if isFa && core.Unwrap(fa.X) == seg && core.FieldName(fa) == "size" && negConst(x.Val) {
 						marked = true
 					}
 				case *ssa.Call:
-					if core.ResolveCall(x).Name == "(*pkg/store.dataSetAof).SetSize" && len(x.Call.Args) == 2 && x.Call.Args[0] == seg && negConst(x.Call.Args[1]) {
+					if core.ResolveCall(x).Name == "(*pkg/store.dataSetAof).SetSize" && len(x.Call.Args) == 2 && core.Unwrap(x.Call.Args[0]) == seg && negConst(x.Call.Args[1]) {
 						marked = true
 					}
 				}
